@@ -120,6 +120,21 @@ pub fn pure(f: &str, a: &[&str]) -> Option<String> {
         }
         "dot.cmp" => ord(parse_dot(a.first()?)?.partial_cmp(&parse_dot(a.get(1)?)?)).into(),
         "dot.inc" => dot(&parse_dot(a.first()?)?.inc()),
+        // the hand-written `PartialEq` / `Hash` of `Dot` (equal dots must hash equally), `apply_inc`, `From<(A, u64)>`
+        "dot.eq" => {
+            use std::hash::{Hash, Hasher};
+            let (x, y) = (parse_dot(a.first()?)?, parse_dot(a.get(1)?)?);
+            let h = |d: &crdts::Dot<u64>| {
+                let mut s = std::collections::hash_map::DefaultHasher::new();
+                d.hash(&mut s);
+                s.finish()
+            };
+            let heq = if x == y { (h(&x) == h(&y)).to_string() } else { "na".to_string() };
+            let mut z = x.clone();
+            z.apply_inc();
+            let w: crdts::Dot<u64> = (y.actor, y.counter).into();
+            format!("{}:{}:{}:{}", x == y, heq, dot(&z), dot(&w))
+        }
         _ => return None,
     })
 }
